@@ -173,8 +173,9 @@ Proof.
   split; [vm_compute; reflexivity|]. vm_compute. discriminate.
 Qed.
 
-(* without wf: a shard group whose StartTime lies before the int64 nanosecond range (created
-   by CreateShardGroup for a timestamp near MinInt64: Truncate rounds down) is not restored *)
+(* without wf: a shard group whose StartTime lies before the int64 nanosecond range is not
+   restored (CreateShardGroup produced such groups for timestamps near MinInt64 until fix
+   78b5206 clamped the start) *)
 Lemma marshal_roundtrip_unrestricted_refuted :
   exists d, unmarshal (marshal (fun _ => 1%Z) d) <> d.
 Proof.
